@@ -19,6 +19,11 @@ pub enum Edit {
     /// remove these present mandatory groups
     Remove(Vec<usize>),
     /// insert `[tag][BER length][payload]` at gap `at` of the tagged part
+    /// a repeated object the level cannot read to its end. `apart` = false: the last present group is a vector with >= 2
+    /// elements, its last element loses its last byte (the container ends inside the element). `apart` = true: a copy of the
+    /// first object of group `which`, cut short by one byte, is appended at the end of the level, behind a different group
+    /// (the tag occurs twice, the second occurrence unreadable).
+    Damaged { which: usize, apart: bool },
     /// (`bare`: the tag byte(s) alone, the next known group directly behind them)
     Foreign {
         at: usize,
@@ -94,6 +99,35 @@ fn apply(gs: &[Group], path: &[(usize, usize)], edit: &Edit) -> Option<(Vec<Grou
             }
             tampered = pos.len() + which.iter().min().unwrap();
         }
+        Edit::Damaged { which, apart } => {
+            if *which >= tg.len() || (!*apart && *which + 1 != tg.len()) || (*apart && *which + 1 == tg.len()) {
+                return None;
+            }
+            let g = &lv[tg[*which]];
+            if (!*apart && (g.card != Card::Vec || g.elems.len() < 2)) || g.elems.is_empty() {
+                return None;
+            }
+            let victim = if *apart { &g.elems[0] } else { g.elems.last().unwrap() };
+            let full = crate::tree::assemble_elem(victim);
+            let tagw = g.tag.map(|t| tag_bytes(t).len()).unwrap_or(0);
+            if tagw == 0 || full.len() <= tagw {
+                return None;
+            }
+            let cut = Elem { tag: g.tag, len: Len::Tlv, node: Node::Leaf(vec![]), announce: None, raw: Some(full[..full.len() - 1].to_vec()), prefix_override: None };
+            for (k, &gi) in tg.iter().enumerate() {
+                let mut c = lv[gi].clone();
+                if k == *which && !*apart {
+                    *c.elems.last_mut().unwrap() = cut.clone();
+                }
+                seq.push(c);
+            }
+            if *apart {
+                let mut c = g.clone();
+                c.elems = vec![cut];
+                seq.push(c);
+            }
+            tampered = pos.len() + if *apart { tg.len() } else { *which };
+        }
         Edit::Foreign { at, tag, payload, bare } => {
             if *at > tg.len() || payload.len() > 100 {
                 return None;
@@ -164,6 +198,7 @@ pub fn check_edit(t: &Table, e: &TypeEntry, v: &Val, path: &[(usize, usize)], ed
         Edit::Duplicate { .. } => "duplicate",
         Edit::Remove(_) => "remove",
         Edit::Foreign { .. } => "foreign",
+        Edit::Damaged { .. } => "damaged",
     };
     let ty = e.name;
     let depth = path.len();
@@ -194,6 +229,37 @@ pub fn check_edit(t: &Table, e: &TypeEntry, v: &Val, path: &[(usize, usize)], ed
                 _ => Err(Violation::new("edit", format!("C13 type={ty} edit=duplicate depth={depth} kind=duplicate-not-reported"), format!("tag {tag:#x} occurs twice in {}\n  result {}\n  expected Err(DuplicateTag(Tag({tag})))", clip(&hex(&bytes), 300), show(&got)), input)),
             }
         }
+        // the level holds an object of a repeated tag that it cannot read: the packet cannot be decoded. (At the top level an
+        // implementation may also end the vector in front of the element and hand it back with the rest.)
+        Edit::Damaged { which, apart } if !swallowed => match &got {
+            Err(_) => Ok(()),
+            Ok((d, rest)) => {
+                let lv = level(&edited, path);
+                let cut_len = lv.last().and_then(|g| g.elems.last()).map(|e| crate::tree::assemble_elem(e).len()).unwrap_or(0);
+                let mut shorter = edited.clone();
+                let lvm = level_mut(&mut shorter, path);
+                let li = lvm.len() - 1;
+                lvm[li].elems.pop();
+                if lvm[li].elems.is_empty() {
+                    lvm.pop();
+                }
+                let want = assemble_top(l, &shorter).and_then(|b| match decode(t, l, &b) {
+                    Ok((v, r)) if r.is_empty() => Some(render(&v)),
+                    _ => None,
+                });
+                if path.is_empty() && want.as_deref() == Some(d.as_str()) && *rest == cut_len {
+                    return Ok(());
+                }
+                let _ = which;
+                Err(Violation::new(
+                    "edit",
+                    format!("C13 type={ty} edit=damaged depth={depth} kind={}", if *apart { "unreadable-second-occurrence-accepted" } else { "unreadable-vector-element-accepted" }),
+                    format!("the last object of the level ({cut_len} bytes) is cut short by the end of its container in {}\n  result {}\n  expected an error{}", clip(&hex(&bytes), 300), show(&got), if path.is_empty() { " (or the value without it, the object handed back)" } else { "" }),
+                    input,
+                ))
+            }
+        },
+        Edit::Damaged { .. } => Ok(()),
         Edit::Remove(which) if !swallowed => {
             let lv = level(&gs, path);
             let tg = present_tagged(lv);
@@ -239,6 +305,14 @@ pub fn check_edit(t: &Table, e: &TypeEntry, v: &Val, path: &[(usize, usize)], ed
                 let want_rest = bytes.len() - off;
                 match prefix_value(t, l, &edited, path, tampered, elem_cut) {
                     Some(want) if *d == want && *rest == want_rest => Ok(()),
+                    // the vector ends in front of the failed element, as it must - but the element's bytes vanish: nobody parsed
+                    // them, nobody reports them (the tag of the vector re-appearing is a duplicate one level up)
+                    Some(want) if *d == want && !matches!(edit, Edit::Foreign { .. }) && !swallowing_steps(&edited, path).is_empty() => Err(Violation::new(
+                        "edit",
+                        format!("C13 type={ty} edit={kind} depth={depth} kind=failed-vec-element-dropped-silently"),
+                        format!("the element at byte {off} of {} fails, its vector ends in front of it and the rest of the container is dropped without an error\n  result {}\n  expected an error, or the value of the preceding bytes with {want_rest} bytes handed back", clip(&hex(&bytes), 300), show(&got)),
+                        input,
+                    )),
                     // a failed vector element is not handed back: the enclosing level parsed (part of) its bytes
                     _ if !matches!(edit, Edit::Foreign { .. }) && !swallowing_steps(&edited, path).is_empty() && *rest < want_rest => Err(Violation::new(
                         "edit",
@@ -434,6 +508,16 @@ pub fn edits_of(t: &Table, name: &str, v: &Val, max_perm_full: usize, sampled_pe
                 out.push((path.clone(), Edit::Remove(mand.iter().enumerate().filter(|(b, _)| mask >> b & 1 == 1).map(|(_, k)| *k).collect())));
             }
         }
+        // unreadable repeated objects: the last element of a trailing vector cut short; a cut-short copy of every other group's
+        // first object behind the last group
+        if !greedy_tail {
+            if n >= 1 && lv[tg[n - 1]].card == Card::Vec && lv[tg[n - 1]].elems.len() >= 2 {
+                out.push((path.clone(), Edit::Damaged { which: n - 1, apart: false }));
+            }
+            for k in 0..n.saturating_sub(1) {
+                out.push((path.clone(), Edit::Damaged { which: k, apart: true }));
+            }
+        }
         // foreign: every gap, alternating the two candidate tags
         for at in 0..=n {
             if ambiguous && at == 0 {
@@ -451,6 +535,30 @@ pub fn edits_of(t: &Table, name: &str, v: &Val, max_perm_full: usize, sampled_pe
         }
     }
     out
+}
+
+/// Packets of type `name` holding a repeated object that is cut short by the end of its container (`Edit::Damaged` at levels
+/// outside vector elements), as far as the reference decoder rejects them: packets that cannot be decoded (C06's fault set).
+pub fn damaged_packets(t: &Table, name: &str, v: &Val) -> Vec<Vec<u8>> {
+    let l = &t[name];
+    let Ok(gs) = build(t, l, v) else { return vec![] };
+    let lv = levels(&gs);
+    edits_of(t, name, v, 0, 0)
+        .into_iter()
+        .filter(|(p, e)| matches!(e, Edit::Damaged { .. }) && !lv.iter().find(|(q, _)| q == p).map(|x| x.1).unwrap_or(true))
+        .filter_map(|(p, e)| {
+            let (ed, _) = apply(&gs, &p, &e)?;
+            if !fits(&ed) {
+                return None;
+            }
+            let b = assemble_top(l, &ed)?;
+            if decode(t, l, &b).is_ok() {
+                None
+            } else {
+                Some(b)
+            }
+        })
+        .collect()
 }
 
 /// Shared state of the coverage-guided target.
@@ -559,6 +667,8 @@ pub fn run(tier: Tier) -> i32 {
                     Edit::Permute(_) => "permute",
                     Edit::Duplicate { .. } => "duplicate",
                     Edit::Remove(_) => "remove",
+                    Edit::Damaged { apart: true, .. } => "damaged-second-occurrence",
+                    Edit::Damaged { .. } => "damaged-last-element",
                     Edit::Foreign { bare: true, tag, .. } => if *tag == 0 { "foreign-bare-00" } else { "foreign-bare" },
                     Edit::Foreign { .. } => "foreign",
                 };
@@ -616,7 +726,7 @@ pub fn run(tier: Tier) -> i32 {
     }
     ctx.finish(
         stats,
-        "shipped types with tagged fields x proptest-generated canonical values x edits of the group list the reference encoder returns per struct level (top level and every nested container, enclosing length prefixes recomputed): every permutation of <= 4 (thorough 6) present tagged groups and sampled ones above; each present non-repeated group duplicated to every position; every non-empty subset of mandatory groups removed; a tag unknown to the whole packet tree inserted at every gap; inside a date/time value (objects 1f0e, 1f0f, hand-written decoder): swapped, each object repeated at every position, each removed. non-trivial = >= 3 tagged groups present at the edited level, or the level is nested; distinct by (type, value, level, edit)",
+        "shipped types with tagged fields x proptest-generated canonical values x edits of the group list the reference encoder returns per struct level (top level and every nested container, enclosing length prefixes recomputed): every permutation of <= 4 (thorough 6) present tagged groups and sampled ones above; each present non-repeated group duplicated to every position; every non-empty subset of mandatory groups removed; a tag unknown to the whole packet tree inserted at every gap (with length and payload, and as a bare unknown byte 00 / 80 / fe / 01 with the next known group directly behind it); inside a date/time value (objects 1f0e, 1f0f, hand-written decoder): swapped, each object repeated at every position, each removed. non-trivial = >= 3 tagged groups present at the edited level, or the level is nested; distinct by (type, value, level, edit)",
         &[
             "foreign tags are chosen unknown to every level of the packet tree, so re-offering the remainder to the enclosing level cannot adopt them",
             "inside a Vec element (failure = end of vector, documented in zvt_builder) duplicates/removals are judged by the weaker prefix predicate",
